@@ -331,6 +331,16 @@ class StdSec:
                 d["Length"] = self.keylen
             if not self.encrypt_metadata or variant == "alt":
                 d["EncryptMetadata"] = bool(self.encrypt_metadata)
+        if self.V < 4:
+            # entries only V >= 4 gives a meaning to, written out all the same (they change nothing)
+            if variant in ("emfalse", "emtrue"):
+                d["EncryptMetadata"] = variant == "emtrue"
+            elif variant == "cfnoise":
+                d["CF"] = {"StdCF": {"Type": Name("CryptFilter"), "CFM": Name("V2"), "AuthEvent": Name("DocOpen"), "Length": 16}}
+                d["StmF"] = Name("StdCF")
+                d["StrF"] = Name("StdCF")
+            elif variant == "len40" and self.V == 1:
+                d["Length"] = 40
         if self.V == 5:
             d["OE"], d["UE"], d["Perms"] = self.OE, self.UE, self.Perms
         return d
